@@ -236,6 +236,9 @@ func (c *MapCodec) readMapEntry(mp, k unsafe.Pointer, data []byte) (int, error) 
 
 func (c *MapCodec) readTagAndLength(data []byte, offset int) (offset2, fieldEnd, index int, wt plenccore.WireType, err error) {
 	wt, index, n := plenccore.ReadTag(data[offset:])
+	if n < 0 || (n == 0 && offset < len(data)) {
+		return 0, 0, 0, wt, fmt.Errorf("corrupt tag in entry of %s", c.rtype.Name())
+	}
 	offset += n
 	fieldEnd = len(data)
 	if wt == plenccore.WTLength {
